@@ -184,6 +184,19 @@ def oracle(case, obs):
         shown_features = [e[1] for e in obs["fmt"] if e[0] == "feature"]
         if [d["name"] for d in data] != shown_features:
             out.append(("JSON features %s, shown features %s" % ([d["name"] for d in data], shown_features), "json-features"))
+        # the background elements of a feature: one per announced background, listing that background's own steps
+        bgs, cur = {}, None
+        for e in obs["fmt"]:
+            if e[0] == "feature":
+                cur = e[1]
+                bgs[cur] = []
+            elif e[0] == "background" and cur is not None:
+                bgs[cur].append(list(e[2]))
+        for d in data:
+            got = [[st["name"] for st in el["steps"]] for el in d.get("elements", []) if el["type"] == "background"]
+            if d["name"] in bgs and got != bgs[d["name"]]:
+                out.append(("JSON feature %s: background elements list steps %s, the backgrounds of the model have %s" % (
+                    d["name"], got, bgs[d["name"]]), "json-background-steps"))
         for d in data:
             if d.get("status") != fstatus.get(d["name"]):
                 out.append(("JSON feature %s status %s, model %s" % (d["name"], d.get("status"), fstatus.get(d["name"])), "json-feature-status"))
